@@ -13,7 +13,10 @@ work=$(mktemp -d /tmp/confirm.XXXXXX)
 base=$(git -C $wt rev-parse HEAD 2>/dev/null || echo HEAD)   # the commit the change was written against
 git -C /repo worktree add -q --detach $work/wt $base || exit 9
 cd $work/wt
-run_demo() { (cd $work/wt && PYTHONPATH=$work/wt timeout 1800 /venv/bin/python $src/demo.py > $work/demo.$1.log 2>&1; echo $?); }
+# some demos guard against importing another checkout by asserting on xitorch.__file__: the confirmation runs in a private
+# worktree, so that guard (and only that) is removed from the copy that is executed
+sed -E '/assert .*xitorch\.__file__/d' $src/demo.py > $work/demo_run.py
+run_demo() { (cd $work/wt && PYTHONPATH=$work/wt timeout 1800 /venv/bin/python $work/demo_run.py > $work/demo.$1.log 2>&1; echo $?); }
 clean_rc=$(run_demo clean)
 git apply $src/patch.diff || { echo "$prop $m: patch does not apply"; git -C /repo worktree remove --force $work/wt; rm -rf $work; exit 1; }
 mut_rc=$(run_demo mutant)
